@@ -113,14 +113,17 @@ var hardOps = map[string]bool{"bvudiv": true, "bvurem": true, "bvsdiv": true, "b
 
 // renderAbs renders t with division/remainder/multiplication by non-literal operands replaced by
 // uninterpreted functions (a sound over-approximation: unsat of the abstraction implies unsat).
-func renderAbs(t *Term, sb *strings.Builder, ufs map[string]string) {
+func renderAbs(t *Term, sb *strings.Builder, ufs map[string]string) { renderAbsQ(t, sb, ufs, false) }
+
+// inQ: inside a quantifier body (range facts about terms that mention the bound variable cannot be stated outside)
+func renderAbsQ(t *Term, sb *strings.Builder, ufs map[string]string, inQ bool) {
 	if t.C != nil || t.Op == "" {
 		sb.WriteString(t.String())
 		return
 	}
 	if t.Op == "forall" {
 		fmt.Fprintf(sb, "(forall ((%s %s)) ", t.Args[0].Leaf, sortOf(t.Args[0]))
-		renderAbs(t.Args[1], sb, ufs)
+		renderAbsQ(t.Args[1], sb, ufs, true)
 		sb.WriteByte(')')
 		return
 	}
@@ -136,7 +139,7 @@ func renderAbs(t *Term, sb *strings.Builder, ufs map[string]string) {
 	var argS []string
 	for _, a := range t.Args {
 		var as strings.Builder
-		renderAbs(a, &as, ufs)
+		renderAbsQ(a, &as, ufs, inQ)
 		argS = append(argS, as.String())
 		inst.WriteByte(' ')
 		inst.WriteString(as.String())
@@ -144,7 +147,7 @@ func renderAbs(t *Term, sb *strings.Builder, ufs map[string]string) {
 	inst.WriteByte(')')
 	sb.WriteString(inst.String())
 	// sound range facts about the abstracted operation (constant positive divisor)
-	if op != t.Op && len(t.Args) == 2 && t.Args[1].IsConst() && t.Args[1].signedVal().Sign() > 0 {
+	if op != t.Op && !inQ && !t.hasBound && len(t.Args) == 2 && t.Args[1].IsConst() && t.Args[1].signedVal().Sign() > 0 {
 		i, a, b := inst.String(), argS[0], argS[1]
 		z := BVu(0, t.W).String()
 		var ax string
@@ -284,6 +287,9 @@ func runSolverCtx(ctx context.Context, tk solverTask, timeout time.Duration) Res
 		if strings.HasPrefix(first, "(error") {
 			st = "error"
 			solverErrors.Store(first, tk.solver)
+			if d := os.Getenv("GOVC_ERRDUMP"); d != "" {
+				os.WriteFile(d, []byte(tk.script), 0o644)
+			}
 		} else if d >= timeout {
 			st = "timeout"
 		}
